@@ -43,6 +43,13 @@ def make(shape: Dict[str, Any], tier: str = 'thorough') -> Any:
             ttl = ctx.int(f'ttl_{key}', 1, TTL_MAX)
             zc.cache.async_add_records([VOCAB[key].make(ttl, t0 - age, True)])
             known[key] = (t0 - age, ttl)
+        if shape.get('history_prefilled'):
+            # the same questions were asked by QM (by this instance or a neighbour) up to 2 s before the lookup starts:
+            # the first (QU) query must not be affected, later QM attempts may be suppressed
+            from zeroconf._dns import DNSQuestion
+
+            for k, (qn, qt) in enumerate(((NAME, SRV), (NAME, TXT), (NAME, A), (NAME, AAAA))):
+                zc.question_history.add_question_at_time(DNSQuestion(qn, qt, const._CLASS_IN), t0 - ctx.int(f'asked_before_ms{k}', 0, 2000), set())
         info = AsyncServiceInfo(T1, NAME, server=HOST) if shape.get('server_given') else AsyncServiceInfo(T1, NAME)
         task = loop.create_task(info.async_request(zc, timeout, qtype))
         loop.run_ready()
@@ -207,6 +214,7 @@ QUICK = {
     'server-given-address-cached': sh(cached=['A1'], server_given=True),
     'server-given-two-families-cached': sh(cached=['A1', 'AAAA1'], server_given=True),
     'srv-cached-aaaa-arrives': sh(cached=['S1'], arrivals=[['AAAA1']]),
+    'history-prefilled': sh(history_prefilled=True, timeout_max=1500),
 }
 THOROUGH = {
     'srv-then-address': sh(arrivals=[['S1', 'T1'], ['A1']]),
